@@ -43,52 +43,118 @@ def Benign (d : Draft) (fcOn : Bool) : Stop → Prop
 /-- every regular expression compiles -/
 def RegexOk (env : Env) : Prop := ∀ p s, env.reSearch p s ≠ some none
 
+/-- the benign stops (and the guard's marker) contain every way a keyword function may legitimately end -/
+theorem stops_guarded (env : Env) (hre : RegexOk env) (hso : Spec.SetOrderOk env) (d : Draft)
+    (fcOn : Bool) :
+    NoCrash.Stops env d fcOn (fun s => Benign d fcOn s ∨ s = .raised unshapedTarget) where
+  done := .inl trivial
+  budget := .inl trivial
+  miss := fun _ => .inl trivial
+  refRes := .inl trivial
+  unknownType := fun h _ => .inl h
+  custom := fun h _ => .inl h
+  reErr := fun p s h => absurd h (hre p s)
+  keyErr := .inl (NoCrash.SetOrderMem.of_ok hso)
+
+theorem stops_benign (env : Env) (hre : RegexOk env) (hso : Spec.SetOrderOk env) (d : Draft)
+    (fcOn : Bool) : NoCrash.Stops env d fcOn (Benign d fcOn) where
+  done := trivial
+  budget := trivial
+  miss := fun _ => trivial
+  refRes := trivial
+  unknownType := fun h _ => h
+  custom := fun h _ => h
+  reErr := fun p s h => absurd h (hre p s)
+  keyErr := .inl (NoCrash.SetOrderMem.of_ok hso)
+
 /-- **No crash on shaped schemas (guarded evaluator).** Whatever the instance, fuel, budget and
     resolver state: the guarded evaluator ends benignly or with the guard's own marker. -/
-theorem guarded_no_crash (env : Env) (hre : RegexOk env) (impl : FmtImpl) (d : Draft)
+theorem guarded_no_crash (env : Env) (hre : RegexOk env) (hso : Spec.SetOrderOk env) (impl : FmtImpl) (d : Draft)
     (fc : Option FormatChecker) (n : Nat) (i s : Json) (hs : Spec.shapedR d s = true)
     (b : Option Nat) (st : RState) :
     Benign d fc.isSome (evalG env impl d fc n i s b st).stop
     ∨ (evalG env impl d fc n i s b st).stop = .raised unshapedTarget := by
-  sorry
+  have hA := stops_guarded env hre hso d fc.isSome
+  induction n generalizing i s b st with
+  | zero => exact .inl trivial
+  | succ n ih =>
+    have hrec : ∀ i t, NoCrash.SI (fun s => Benign d fc.isSome s ∨ s = .raised unshapedTarget)
+        (guardRec d (evalG env impl d fc n) i t) := by
+      intro i t b st
+      unfold guardRec
+      split
+      · exact ih i t ‹_› b st
+      · exact .inr rfl
+    exact NoCrash.evalStep_good hA impl true s.size _ i s hs (fun _ _ i t _ => hrec i t)
+      (fun _ => hrec) b st
 
 /-- **The guard is faithful.** Unless the guard fires, the guarded evaluator *is* the evaluator. -/
 theorem guard_simulation (env : Env) (impl : FmtImpl) (d : Draft) (fc : Option FormatChecker)
     (n : Nat) (i s : Json) (b : Option Nat) (st : RState) :
     (evalG env impl d fc n i s b st).stop = .raised unshapedTarget
     ∨ evalG env impl d fc n i s b st = eval env impl (d.cfg fc) n i s b st := by
-  sorry
+  have H := NoCrash.closed₂_RU env unshapedTarget
+  induction n generalizing i s b st with
+  | zero => exact .inr rfl
+  | succ n ih =>
+    have hrec : ∀ i s, NoCrash.RU unshapedTarget (guardRec d (evalG env impl d fc n) i s)
+        (eval env impl (d.cfg fc) n i s) := by
+      intro i s b st
+      unfold guardRec
+      split
+      · exact ih i s b st
+      · exact .inl rfl
+    exact R_evalStep H impl (d.cfg fc) hrec i s b st
 
 /-- **C03.** On a shaped schema the evaluator ends benignly, unless some reference met on the way
     designates something that is not a schema. -/
-theorem no_crash (env : Env) (hre : RegexOk env) (impl : FmtImpl) (d : Draft)
+theorem no_crash (env : Env) (hre : RegexOk env) (hso : Spec.SetOrderOk env) (impl : FmtImpl) (d : Draft)
     (fc : Option FormatChecker) (n : Nat) (i s : Json) (hs : Spec.shapedR d s = true)
     (b : Option Nat) (st : RState) :
     Benign d fc.isSome (eval env impl (d.cfg fc) n i s b st).stop
     ∨ (evalG env impl d fc n i s b st).stop = .raised unshapedTarget := by
-  sorry
+  rcases guard_simulation env impl d fc n i s b st with h | h
+  · exact .inr h
+  · rw [← h]
+    exact guarded_no_crash env hre hso impl d fc n i s hs b st
 
 /-- reference-free shaped schemas: the guard never fires, so the evaluator always ends benignly -/
-theorem no_crash_reffree (env : Env) (hre : RegexOk env) (impl : FmtImpl) (d : Draft)
+theorem no_crash_reffree (env : Env) (hre : RegexOk env) (hso : Spec.SetOrderOk env) (impl : FmtImpl) (d : Draft)
     (fc : Option FormatChecker) (n : Nat) (i s : Json) (hs : Spec.shaped d s = true)
     (b : Option Nat) (st : RState) :
     Benign d fc.isSome (eval env impl (d.cfg fc) n i s b st).stop := by
-  sorry
+  exact NoCrash.eval_good_reffree (stops_benign env hre hso d fc.isSome) trivial impl n i s ⟨_, hs⟩ b st
 
 /-- termination: a reference-free schema never runs out of fuel once the fuel exceeds twice its size -/
 theorem terminates_reffree (env : Env) (impl : FmtImpl) (d : Draft) (fc : Option FormatChecker)
     (n : Nat) (i s : Json) (hs : Spec.shaped d s = true) (hn : 2 * s.size + 2 ≤ n)
     (b : Option Nat) (st : RState) :
     (eval env impl (d.cfg fc) n i s b st).stop ≠ .fuel := by
-  sorry
+  exact NoCrash.eval_terminates impl n s ⟨_, hs⟩ hn i b st
 
 /-- hence every entry point (`is_valid`, `validate`, `iter_errors`) ends benignly -/
-theorem entry_points_benign (env : Env) (hre : RegexOk env) (impl : FmtImpl) (d : Draft)
+theorem entry_points_benign (env : Env) (hre : RegexOk env) (hso : Spec.SetOrderOk env) (impl : FmtImpl) (d : Draft)
     (fc : Option FormatChecker) (n : Nat) (i s : Json) (hs : Spec.shaped d s = true) (st : RState) :
     (match (isValid (eval env impl (d.cfg fc) n i s) st).1 with
      | .raise e => Benign d fc.isSome (.raised e) | _ => True)
     ∧ (match (validateM (eval env impl (d.cfg fc) n i s) st).1 with
        | .raise e => Benign d fc.isSome (.raised e) | _ => True) := by
-  sorry
+  have h := no_crash_reffree env hre hso impl d fc n i s hs (some 1) st
+  constructor
+  · unfold isValid
+    rcases hg : eval env impl (d.cfg fc) n i s (some 1) st with ⟨es, stop, st'⟩
+    rw [hg] at h
+    cases es <;> cases stop <;> first | exact h | trivial
+  · unfold validateM
+    rcases hg : eval env impl (d.cfg fc) n i s (some 1) st with ⟨es, stop, st'⟩
+    rw [hg] at h
+    cases es <;> cases stop <;> first | exact h | trivial
+
+#print axioms guarded_no_crash
+#print axioms guard_simulation
+#print axioms no_crash
+#print axioms no_crash_reffree
+#print axioms terminates_reffree
+#print axioms entry_points_benign
 
 end JS.Props.C03
